@@ -27,6 +27,7 @@ fn fmt_name(f: Fmt) -> &'static str {
         Fmt::MsgPack => "msgpack",
         Fmt::JsonReader => "json-reader",
         Fmt::JsonValue => "json-value",
+        Fmt::RonNamed => "ron-named",
     }
 }
 fn pos_name(p: Pos) -> &'static str {
@@ -46,6 +47,7 @@ fn fmt_of(s: &str) -> Option<Fmt> {
         "msgpack" => Fmt::MsgPack,
         "json-reader" => Fmt::JsonReader,
         "json-value" => Fmt::JsonValue,
+        "ron-named" => Fmt::RonNamed,
         _ => return None,
     })
 }
